@@ -118,7 +118,10 @@ def gen_case(rng, tier, g):
         if fmt == 'csv' and rng.random() < 0.45:
             args['delimiter'] = rng.choice([';', '|', ' ', '\t', ':'])
         if rng.random() < 0.3:
-            args['quotechar'] = rng.choice(["'", '|', '"', '`'])
+            # (a quote character equal to the delimiter is not a dialect)
+            args['quotechar'] = rng.choice(
+                [q for q in ["'", '|', '"', '`']
+                 if q != args.get('delimiter')])
         if rng.random() < 0.5:
             args['quoting'] = rng.choice([csv.QUOTE_MINIMAL, csv.QUOTE_ALL,
                                           csv.QUOTE_NONNUMERIC,
